@@ -1,6 +1,8 @@
 import PngVerif.Proofs.ReaderResume
 import PngVerif.Proofs.ReaderStart
 import PngVerif.Proofs.ReaderToy
+import PngVerif.Proofs.ReaderErrData
+import PngVerif.Proofs.ReaderToyLate
 /-!
 # C05 — Truncation gives a resumable end-of-input error; resuming completes identically
 
@@ -28,10 +30,18 @@ still to be delivered.  `Sim` is preserved by every operation, with equal result
 and `C05_resume`: a caller that retries every call that ran out of input, for any growth schedule, gets
 the results of the run that saw the whole input from the start.  Two more hypotheses appear in (5):
 `TCfg.Stable` (the output type depends on the IHDR fields and `tRNS` only — the documented size of the
-frame buffer is compared across calls), and for whole runs that no call of the run on the whole input
-fails (a fatal error can surface one call later in the truncated run: `decode_next` reports it instead
-of the image data it decoded in the same call, while the truncated run had already delivered that
-data).  `read_info(self)` consumes the `Decoder`, so a failed `read_info` cannot be retried: the runs
+frame buffer is compared across calls), and for whole runs that the calls compared do not fail on the whole
+input: the results agree UP TO THE FIRST FAILURE of the run that sees everything (`C05_resume_until_failure`;
+`C05_resume` is the case "no failure at all").  The reason is NOT a dropped buffer — a failing `update` has
+appended nothing to `image_data`, in the model (`failing_update_appends_no_image_data`,
+`decode_next_drops_no_data`) as in the crate (see `Proofs/ReaderErrData.lean` for the reading of
+stream.rs / zlib.rs) — but the inflater: `ZlibStream::decompress` returns a corrupt-stream error through `?`
+(zlib.rs:100-105) before `transfer_finished_data` (109), so the more compressed input one call gets, the EARLIER a
+corrupt stream fails, and rows that a caller with less input had already received are never delivered to the
+caller that had everything at once.  Without the hypothesis the statement is false
+(`C05_resume_needs_good_run`, a decided counterexample; the same on the crate: a stored-block stream with a
+broken third block header gives `[Err, …]` with all bytes available and `[row, row, row, row, eof, Err, …]` from
+a prefix).  `read_info(self)` consumes the `Decoder`, so a failed `read_info` cannot be retried: the runs
 start from a `Reader` (`C05_resume`), or from a `Decoder` whose `read_info` succeeds on the visible prefix
 (`C05_resume_from_start`; `read_info_on_longer_input`).
 
@@ -243,7 +253,9 @@ theorem call_monotone (cfg : Cfg) (hI : cfg.InflateOk) (t : TCfg) (ht : t.Ok) (v
 /-- **`C05_resume`**: a `Reader` `r0` that sees a prefix of the input; `L` bytes exist in all.  A caller
     makes the calls `ops`; whenever a call runs out of input it waits for the next bytes of an
     arbitrary growth schedule and makes the same call again (`resumeRun`).  If none of the calls fails
-    on the reader that sees all `L` bytes from the start, the results of the retrying caller other than
+    on the reader that sees all `L` bytes from the start (a hypothesis that cannot be dropped:
+    `C05_resume_needs_good_run`; runs that do fail are compared up to their first failure by
+    `C05_resume_until_failure`), the results of the retrying caller other than
     `UnexpectedEof` are the first results of that run — all of them, in the same order, with the same
     rows and frames, if the schedule delivers all `L` bytes -/
 theorem C05_resume (cfg : Cfg) (hI : cfg.InflateOk) (t : TCfg) (ht : t.Ok) (hst : t.Stable) (r0 : R) (hInv : Inv t r0)
@@ -286,6 +298,100 @@ theorem C05_resume_from_start (cfg : Cfg) (hI : cfg.InflateOk) (t : TCfg) (ht : 
     ∃ zs, (run cfg t (growTo a L) (.readInfo :: ops)).2 = .header :: (resumeRun cfg t L sched ops r0 ++ zs) ∧
       (L ≤ a.visible + sched.sum → zs = []) :=
   resumeRun_from_start cfg hI ht hst a r0 hP hr hd L hv h ops hc sched hg
+
+/-! ## (6) image data and errors of one call; the hypothesis "no failure" of `C05_resume*` -/
+
+/-- **a failing `update` call has appended nothing to the caller's `image_data`**: for every decoder, input and error.
+    (`update` returns after the first `next_state` that reports an event; the two arms that append image data
+    report `ImageData` / `ImageDataFlushed` when they succeed and append nothing when they fail.) -/
+theorem failing_update_appends_no_image_data (cfg : Cfg) (d d' : Dec) (buf : Bytes) (e : Err)
+    (h : update cfg d buf = (d', .error e)) : d'.out = d.out :=
+  update_error_out cfg d d' buf e h
+
+/-- where the error of an `update` call is raised: in a poisoned decoder, or in the LAST `next_state` of the call, all
+    earlier ones of the same call having reported `Nothing` and appended nothing — image data and an error never come
+    from different `next_state` calls of one `update` -/
+theorem update_error_site (cfg : Cfg) (d d' : Dec) (buf : Bytes) (st : St) (e : Err) (hs : d.state = some st)
+    (h : update cfg d buf = (d', .error e)) :
+    ∃ (dl : Dec) (bl : Bytes), dl.out = d.out ∧ d' = { dl with state := none } ∧
+      (dl.state = none ∨ ∃ st', dl.state = some st' ∧ nextState cfg dl st' bl = .error e) := by
+  unfold update at h
+  rw [hs] at h
+  exact updateLoop_error_site cfg _ d buf 0 d' e h
+
+/-- **the model's `decode_next` drops no image data when it fails**: the variant that hands over what `update`
+    appended to `image_data` ALSO when the call fails (`decodeNextKeep`, what read_decoder.rs:61-72 does) returns the
+    same reader and the same result, and no data with an error -/
+theorem decode_next_drops_no_data (cfg : Cfg) (r : R) :
+    (decodeNextKeep cfg r).1 = (decodeNext' cfg r).1 ∧
+    (decodeNextKeep cfg r).2 = (match (decodeNext' cfg r).2 with
+      | .ok (ev, data) => (data, .ok ev)
+      | .error e => ([], .error e)) :=
+  decodeNextKeep_eq cfg r
+
+/-- **`C05_resume` up to the first failure.**  `good` are calls none of which fails or runs out of input on the
+    reader that sees all `L` bytes from the start; `more` are ANY further calls (they may fail).  Then
+    * the run that sees everything, on `good ++ more`, begins with its results on `good`;
+    * these are, up to a tail `zs` that is empty when the schedule delivers all `L` bytes, the results of the retrying
+      caller on `good` (`C05_resume`);
+    * the retrying caller's results on `good ++ more` begin with its results on `good`.
+    With a schedule that delivers everything: BOTH result lists begin with the results of the uninterrupted run up
+    to (excluding) its first failure. -/
+theorem C05_resume_until_failure (cfg : Cfg) (hI : cfg.InflateOk) (t : TCfg) (ht : t.Ok) (hst : t.Stable) (r0 : R)
+    (hInv : Inv t r0) (hr : r0.isReader = true) (hd : r0.dead = false) (L : Nat) (hL : r0.visible ≤ L)
+    (good more : List Op) (hc : ∀ op ∈ good, op.isCall = true) (sched : List Nat)
+    (hg : ∀ x ∈ (run cfg t (growTo r0 L) good).2, x.isGood = true) :
+    ∃ ys zs zs', (run cfg t (growTo r0 L) (good ++ more)).2 = (run cfg t (growTo r0 L) good).2 ++ ys ∧
+      (run cfg t (growTo r0 L) good).2 = resumeRun cfg t L sched good r0 ++ zs ∧
+      (L ≤ r0.visible + sched.sum → zs = []) ∧
+      resumeRun cfg t L sched (good ++ more) r0 = resumeRun cfg t L sched good r0 ++ zs' :=
+  resumeRun_until_failure cfg hI ht hst r0 hInv hr hd L hL good more hc sched hg
+
+/-- … from a `Decoder` whose `read_info` succeeds on the visible prefix -/
+theorem C05_resume_from_start_until_failure (cfg : Cfg) (hI : cfg.InflateOk) (t : TCfg) (ht : t.Ok) (hst : t.Stable)
+    (a r0 : R) (hP : PreInv a) (hr : a.isReader = false) (hd : a.dead = false) (L : Nat) (hv : a.visible ≤ L)
+    (h : step cfg t a .readInfo = (r0, .header)) (good more : List Op) (hc : ∀ op ∈ good, op.isCall = true)
+    (sched : List Nat) (hg : ∀ x ∈ (run cfg t (growTo a L) (.readInfo :: good)).2, x.isGood = true) :
+    ∃ ys zs zs', (run cfg t (growTo a L) (.readInfo :: (good ++ more))).2 =
+        (run cfg t (growTo a L) (.readInfo :: good)).2 ++ ys ∧
+      (run cfg t (growTo a L) (.readInfo :: good)).2 = .header :: (resumeRun cfg t L sched good r0 ++ zs) ∧
+      (L ≤ a.visible + sched.sum → zs = []) ∧
+      resumeRun cfg t L sched (good ++ more) r0 = resumeRun cfg t L sched good r0 ++ zs' :=
+  resumeRun_from_start_until_failure cfg hI ht hst a r0 hP hr hd L hv h good more hc sched hg
+
+open Png.Reader.Toy Png.Framing.Toy Png.Reader.ToyLate in
+/-- the two runs behind `C05_resume_needs_good_run`: a 1×2 image whose data stream is fine for the first row and corrupt
+    after it, an inflater that (like a real one) notices when it gets there.  With all 62 bytes visible the first
+    `next_row` fails (`Format(CorruptFlateStream)`, then `Parameter`); from the first 44 bytes it delivers row 0, and
+    the retried second call fails. -/
+theorem late_corruption_runs :
+    (run lateCfg idT (growTo lateReader imgLate.length) [.nextRow, .nextRow]).2 =
+      [.err .format "CorruptFlateStream", .err .parameter "PolledAfterFatalError"] ∧
+    resumeRun lateCfg idT imgLate.length [100] [.nextRow, .nextRow] lateReader =
+      [.row (.null 0) [9], .err .format "CorruptFlateStream"] := by decide +kernel
+
+open Png.Reader.Toy Png.Framing.Toy Png.Reader.ToyLate in
+/-- **the hypothesis "no call of the run that sees everything fails" of `C05_resume` cannot be dropped**: without it the
+    results of the retrying caller need not even be the first results of that run (witness: `late_corruption_runs`; all
+    other hypotheses of `C05_resume` hold, the schedule delivers everything) -/
+theorem C05_resume_needs_good_run :
+    ¬ (∀ (cfg : Cfg), cfg.InflateOk → ∀ (t : TCfg), t.Ok → t.Stable → ∀ (r0 : R), Inv t r0 → r0.isReader = true →
+        r0.dead = false → ∀ (L : Nat), r0.visible ≤ L → ∀ (ops : List Op), (∀ op ∈ ops, op.isCall = true) →
+        ∀ (sched : List Nat), L ≤ r0.visible + sched.sum →
+        ∃ zs, (run cfg t (growTo r0 L) ops).2 = resumeRun cfg t L sched ops r0 ++ zs) := by
+  intro h
+  have hR := (run_no_panic lateCfg idT_ok [.readInfo] _ (rinv_init idT {} 1000 {} imgLate cut (by decide +kernel))
+    ⟨fun h => (by cases h), by decide⟩).1
+  have hr : lateReader.isReader = true := by decide +kernel
+  have hInv : Inv idT lateReader := by
+    rcases hR with ⟨_, h2⟩ | ⟨_, _, h2⟩ | ⟨_, h2, _⟩
+    · exact absurd (show lateReader.isReader = false from h2) (by rw [hr]; decide)
+    · exact h2
+    · exact absurd (show lateReader.isReader = false from h2) (by rw [hr]; decide)
+  obtain ⟨zs, hz⟩ := h lateCfg late_inflateOk idT idT_ok idT_stable lateReader hInv hr (by decide +kernel) imgLate.length
+    (by decide +kernel) [.nextRow, .nextRow] (by decide) [100] (by decide +kernel)
+  rw [late_corruption_runs.1, late_corruption_runs.2] at hz
+  cases hz
 
 /-! ## Non-vacuity -/
 
@@ -362,6 +468,16 @@ example : resumeRun toyCfg idT apng.length [1, 1, 1000] [.nextFrame 7, .nextFram
     rw [hc.2.2.2.1, hc.2.2.1]
   exact C05_resume_complete toyCfg toy_inflateOk idT idT_ok hst afterInfo hInv (by decide +kernel) (by decide +kernel)
     apng.length (by decide +kernel) _ (by decide) [1, 1, 1000] (by decide +kernel) (by decide +kernel)
+
+/-- `C05_resume_until_failure` on the same run followed by a call that FAILS (`next_frame` after `finish`:
+    `Parameter`): the hypothesis holds for the four good calls, the fifth result of the run that sees everything is a
+    failure (so `C05_resume` does not apply to the five calls), and both result lists begin with the four good results -/
+example : (∀ x ∈ (run toyCfg idT (growTo afterInfo apng.length) [.nextFrame 7, .nextFrameInfo, .nextFrame 7, .finish]).2,
+      x.isGood = true) ∧
+    ((run toyCfg idT (growTo afterInfo apng.length)
+      ([.nextFrame 7, .nextFrameInfo, .nextFrame 7, .finish] ++ [.nextFrame 7])).2).map code = [101, 4, 101, 5, 12] ∧
+    (resumeRun toyCfg idT apng.length [1, 1, 1000] ([.nextFrame 7, .nextFrameInfo, .nextFrame 7, .finish] ++ [.nextFrame 7])
+      afterInfo).map code = [101, 4, 101, 5, 12] := by decide +kernel
 
 /-- from the `Decoder`: `read_info` on the first 100 bytes, then the retrying caller; and the run on the
     whole input -/
